@@ -162,7 +162,17 @@ impl<B: IoBufMut> Framer<B> for LengthDelimited {
             u64::from_le_bytes(len_bytes)
         } as usize;
 
-        if buf.len() < self.length_field_len + len {
+        let frame_len = match self.length_field_len.checked_add(len) {
+            Some(frame_len) => frame_len,
+            None => {
+                return Err(io::Error::new(
+                    io::ErrorKind::InvalidData,
+                    "frame length overflows usize",
+                ));
+            }
+        };
+
+        if buf.len() < frame_len {
             return Ok(None);
         }
 
